@@ -26,6 +26,7 @@ class Report:
         self.findings = evidence.Findings()
         self.violations = {}  # key -> replay path
         self.known = {}
+        self.harness_errors = []
         self.repo = core.repo_state()
         say(f"[{prop}] tier={tier} VERIF_SEED={seed} repo_head={self.repo['repo_head'][:10]} "
             f"tree={self.repo['tree_digest']}")
@@ -51,9 +52,22 @@ class Report:
                 say(f"[{self.prop}] violation {key}: {text}")
             say(f"VIOLATION property={self.prop} replay={path}")
 
+    def phase(self, name, fn, *a, **kw):
+        """Run one phase of a check.  A harness error in a phase does not mask
+        violations that were already reported: it is recorded, and the final exit code is
+        1 if there are violations, 2 otherwise."""
+        try:
+            return fn(*a, **kw)
+        except core.HarnessError as e:
+            self.harness_errors.append(f"{name}: {e}")
+            say(f"[{self.prop}] HARNESS-ERROR in phase {name}: {e}")
+            return None
+
     def finish(self, level, coverage, assumptions, extra=None):
         wall = time.time() - self.t0
         extra = dict(extra or {})
+        if self.harness_errors:
+            extra["harness_errors"] = self.harness_errors
         extra["known_findings_reported"] = sorted(self.known)
         extra["violation_keys"] = sorted(self.violations)
         extra.update(self.repo)
@@ -61,4 +75,6 @@ class Report:
                               len(self.violations), assumptions, extra)
         say(f"[{self.prop}] evidence -> {path}  wall={wall:.1f}s "
             f"violations={len(self.violations)} known={len(self.known)}")
-        return 1 if self.violations else 0
+        if self.violations:
+            return 1
+        return 2 if self.harness_errors else 0
